@@ -7,6 +7,7 @@ import SymfcModel.Model.Cutoff
 import SymfcModel.Gen.Cutoff
 import SymfcModel.Gen.Api
 import SymfcModel.Lemmas.Cutoff
+import SymfcModel.Lemmas.Coverage
 namespace Symfc.C07
 open Symfc
 
@@ -68,5 +69,29 @@ theorem cutoff_beyond_all_distances_is_no_cutoff (x : CutoffIn)
 theorem no_cutoff_combinations (n r : Nat) (c : List Nat) :
     c ∈ entireCombinations n r ↔ c.length = r ∧ c.Pairwise (· < ·) ∧ ∀ e ∈ c, e < n :=
   mem_entireCombinations
+
+/-- C07.b/c (orders 2 and 3), EXACT ZERO PATTERN on the model: with a cutoff whose nearness relation is symmetric,
+    reflexive and invariant under the lattice translations, an element is written by the permutation stage (kept as a
+    free parameter up to symmetry) IF AND ONLY IF its atoms are pairwise within the cutoff; every element containing a
+    far pair is never written, is eliminated, has an empty row in `c_pt` and therefore is a structural (exact) zero of
+    every output — and nothing inside the cutoff is lost. -/
+theorem covered_iff_pairwise_within_cutoff_O2_O3 (c : Cell) (hwf : c.wf = true) (n : Nat) (hn : n = 2 ∨ n = 3)
+    (x : CutoffIn) (hN : x.N = c.N)
+    (hsym : ∀ i j, i < c.N → j < c.N → near x i j → near x j i)
+    (hrefl : ∀ i, i < c.N → near x i i)
+    (hinv : ∀ l, l < c.nlp → ∀ i j, i < c.N → j < c.N → (near x (c.img l i) (c.img l j) ↔ near x i j))
+    (nBatch : String → Nat) (ptr' : Array Int)
+    (h : permDecompr Gen.cutoffOps c n (repFor n) (stagesFor n) (some x) nBatch = some ptr')
+    (t : List Nat) (hlen : t.length = n) (hlt : ∀ e ∈ t, e < 3 * c.N) :
+    covered ptr' (elemIdx c.N (c.atomicDecompr n) t) ↔ pairwiseNear x (t.map (· / 3)) :=
+  Cov.V2_covered c hwf hn x hN hsym hrefl hinv nBatch ptr' h t hlen hlt
+
+/-- C07.b/c (order 4): the same with the (p,p,q,q) pattern of finding F1 excepted -/
+theorem covered_iff_pairwise_within_cutoff_O4 (c : Cell) (hwf : c.wf = true) (cut : Option CutoffIn)
+    (hcut : ∀ x, cut = some x → Cov.CutOK c x) (nBatch : String → Nat) (ptr' : Array Int)
+    (h : permDecompr Gen.cutoffOps c 4 Gen.repKindO4 Gen.stagesO4 cut nBatch = some ptr')
+    (t : List Nat) (hlen : t.length = 4) (hlt : ∀ e ∈ t, e < 3 * c.N) :
+    covered ptr' (elemIdx c.N (c.atomicDecompr 4) t) ↔ Cov.ppqq t = false ∧ Cov.admissible cut t :=
+  Cov.V3_covered c hwf cut hcut nBatch ptr' h t hlen hlt
 
 end Symfc.C07
